@@ -102,7 +102,7 @@ def run_workers(prop, cases, hashseed, work, tag):
     chunks = [cases[i:i + size] for i in range(0, n, size)]
     env = dict(os.environ)
     env.update({'PYTHONHASHSEED': str(hashseed), 'PYTHONPATH': REPO_SRC, 'PYTHONDONTWRITEBYTECODE': '1', 'GT_SRC': REPO_SRC,
-                'GAMBATOOLS_VERIF': '1'})
+                'GAMBATOOLS_VERIF': '1', 'VERIF_WORK': work, 'TMPDIR': work})
 
     def one(i):
         fin = os.path.join(work, 'in_%s_%d.json' % (tag, i))
@@ -186,7 +186,8 @@ def shrink(mod, prop, case, code, seed, work):
     if not hasattr(mod, 'shrink'):
         return case
     rounds = 0
-    while rounds < 25:
+    deadline = time.time() + float(os.environ.get('VERIF_SHRINK_SECONDS', '120'))
+    while rounds < 25 and time.time() < deadline:
         cands = list(mod.shrink(case))[:200]
         if not cands:
             break
